@@ -42,7 +42,64 @@ def join_index(world, rel, fn):
 
 
 def _loads(node):
-    return {n.id for n in ast.walk(node) if isinstance(n, ast.Name) and isinstance(n.ctx, ast.Load)}
+    """names of the enclosing scope an expression / statement may read (the variables of a comprehension and the parameters of a lambda are
+    names of their own scope: they neither read nor leak)"""
+    return _scoped_loads(node, False)
+
+
+def _must_loads(node):
+    """names that are read whenever the expression is evaluated (not: the arms of a conditional expression, the later operands of and / or, the
+    element of a comprehension - the sequence may be empty -, the body of a lambda)"""
+    return _scoped_loads(node, True)
+
+
+def _scoped_loads(node, must):
+    out = set()
+
+    def go(n, bound):
+        if isinstance(n, ast.Name):
+            if isinstance(n.ctx, ast.Load) and n.id not in bound:
+                out.add(n.id)
+            return
+        if isinstance(n, (ast.ListComp, ast.SetComp, ast.GeneratorExp, ast.DictComp)):
+            inner = set(bound)
+            for k, g in enumerate(n.generators):
+                if k == 0:
+                    go(g.iter, bound)
+                elif not must:
+                    go(g.iter, inner)
+                inner |= _target_names(g.target)
+                if not must:
+                    for c in g.ifs:
+                        go(c, inner)
+                    for x in ast.walk(g.target):          # a subscript / attribute target reads its base
+                        if isinstance(x, ast.Name) and isinstance(x.ctx, ast.Load) and x.id not in inner:
+                            out.add(x.id)
+            if not must:
+                for e in ([n.key, n.value] if isinstance(n, ast.DictComp) else [n.elt]):
+                    go(e, inner)
+            return
+        if isinstance(n, ast.Lambda):
+            a = n.args
+            for d in list(a.defaults) + [d for d in a.kw_defaults if d is not None]:
+                go(d, bound)
+            if not must:
+                ps = {x.arg for x in a.posonlyargs + a.args + a.kwonlyargs} | {x.arg for x in (a.vararg, a.kwarg) if x is not None}
+                go(n.body, bound | ps)
+            return
+        if must and isinstance(n, ast.IfExp):
+            go(n.test, bound)
+            return
+        if must and isinstance(n, ast.BoolOp):
+            go(n.values[0], bound)
+            return
+        if must and isinstance(n, (ast.FunctionDef, ast.AsyncFunctionDef, ast.ClassDef)):
+            return
+        for ch in ast.iter_child_nodes(n):
+            go(ch, bound)
+
+    go(node, frozenset())
+    return out
 
 
 def _target_names(t):
@@ -92,6 +149,163 @@ def live_in(stmts, live):
         else:
             live = live | _loads(st)
     return live
+
+
+# ---- what the code after the join does first with one name: READ it (on every way through), or not read it at all (KILL: rebound or the function
+# is left first; PASS: untouched; MAYKILL: perhaps rebound), or MAYREAD (it depends on tests that are not decided)
+READ, KILL, PASS, MAYKILL, MAYREAD = "read", "kill", "pass", "maykill", "mayread"
+
+
+def _seq(a, b):
+    if a in (READ, KILL, MAYREAD):
+        return a
+    if a == PASS:
+        return b
+    # a == MAYKILL
+    return {READ: MAYREAD, MAYREAD: MAYREAD, KILL: KILL, PASS: MAYKILL, MAYKILL: MAYKILL}[b]
+
+
+def _alt(a, b):
+    if a == b:
+        return a
+    if READ in (a, b) or MAYREAD in (a, b):
+        return MAYREAD
+    return MAYKILL
+
+
+def _expr_use(node, name):
+    if node is None:
+        return PASS
+    if name in _must_loads(node):
+        return READ
+    if name in _loads(node):
+        return MAYREAD
+    return PASS
+
+
+def _zero_or_more(r):
+    """a loop body that may run zero times"""
+    return {READ: MAYREAD, MAYREAD: MAYREAD, KILL: MAYKILL, MAYKILL: MAYKILL, PASS: PASS}[r]
+
+
+def first_use(stmts, name, decide=None):
+    """decide(test node) -> True / False / None: the truth of a test of the tail on the path under consideration, when known"""
+    r = PASS
+    for st in stmts:
+        r = _seq(r, _stmt_use(st, name, decide))
+        if r in (READ, KILL, MAYREAD):
+            return r
+    return r
+
+
+def _stmt_use(st, name, decide):
+    if isinstance(st, ast.Assign):
+        r = _expr_use(st.value, name)
+        for t in st.targets:
+            els = t.elts if isinstance(t, (ast.Tuple, ast.List)) else [t]
+            for e in els:
+                if isinstance(e, ast.Starred):
+                    e = e.value
+                if isinstance(e, ast.Name):
+                    r = _seq(r, KILL if e.id == name else PASS)
+                else:
+                    r = _seq(r, _expr_use(e, name))
+        return r
+    if isinstance(st, ast.AnnAssign):
+        r = _expr_use(st.value, name)
+        if isinstance(st.target, ast.Name):
+            return _seq(r, KILL if (st.target.id == name and st.value is not None) else PASS)
+        return _seq(r, _expr_use(st.target, name))
+    if isinstance(st, ast.AugAssign):
+        r = _expr_use(st.value, name)
+        if isinstance(st.target, ast.Name):
+            return _seq(r, READ if st.target.id == name else PASS)
+        return _seq(r, _expr_use(st.target, name))
+    if isinstance(st, ast.If):
+        r = _expr_use(st.test, name)
+        if r in (READ, MAYREAD):
+            return r
+        d = decide(st.test) if decide is not None else None
+        if d is True:
+            return first_use(st.body, name, decide)
+        if d is False:
+            return first_use(st.orelse, name, decide)
+        return _alt(first_use(st.body, name, decide), first_use(st.orelse, name, decide))
+    if isinstance(st, ast.For):
+        r = _expr_use(st.iter, name)
+        if name in _target_names(st.target):
+            body = MAYKILL
+        else:
+            body = _zero_or_more(first_use(st.body, name, None))
+        r = _seq(r, body)
+        return _seq(r, first_use(st.orelse, name, decide))
+    if isinstance(st, ast.While):
+        r = _expr_use(st.test, name)
+        r = _seq(r, _zero_or_more(first_use(st.body, name, None)))
+        return _seq(r, first_use(st.orelse, name, decide))
+    if isinstance(st, ast.With):
+        r = PASS
+        for it in st.items:
+            r = _seq(r, _expr_use(it.context_expr, name))
+            if it.optional_vars is not None and name in _target_names(it.optional_vars):
+                r = _seq(r, KILL)
+        return _seq(r, first_use(st.body, name, decide))
+    if isinstance(st, ast.Return):
+        r = _expr_use(st.value, name)
+        return _seq(r, KILL)
+    if isinstance(st, ast.Raise):
+        return _seq(_seq(_expr_use(st.exc, name), _expr_use(st.cause, name)), KILL)
+    if isinstance(st, ast.Expr):
+        return _expr_use(st.value, name)
+    if isinstance(st, ast.Delete):
+        return READ if any(isinstance(t, ast.Name) and t.id == name for t in st.targets) else \
+            (MAYREAD if name in _loads(st) else PASS)
+    if isinstance(st, (ast.Pass, ast.Global, ast.Nonlocal, ast.Break, ast.Continue)):
+        return PASS
+    if isinstance(st, (ast.Import, ast.ImportFrom)):
+        return KILL if any((a.asname or a.name).split(".")[0] == name for a in st.names) else PASS
+    if isinstance(st, (ast.FunctionDef, ast.AsyncFunctionDef, ast.ClassDef)):
+        if st.name == name:
+            return KILL
+        return MAYREAD if any(isinstance(n, ast.Name) and n.id == name for n in ast.walk(st)) else PASS
+    # try / match / anything else: touched or not
+    if any(isinstance(n, ast.Name) and n.id == name and isinstance(n.ctx, (ast.Load, ast.Del)) for n in ast.walk(st)):
+        return MAYREAD
+    if any(isinstance(n, ast.Name) and n.id == name for n in ast.walk(st)):
+        return MAYKILL
+    return PASS
+
+
+_SIMPLE_TEST = (ast.Name, ast.Constant, ast.Compare, ast.BoolOp, ast.UnaryOp, ast.Attribute, ast.cmpop, ast.boolop, ast.unaryop, ast.expr_context,
+                ast.Tuple, ast.List)
+
+
+def tail_test(leaf, node, assign, tail):
+    """truth of a test of the code after the join on the path of `leaf` (None: not known).  Only tests made of names, constants, comparisons and
+    not / and / or whose names the tail itself never rebinds are looked at; they are evaluated on the state the path left behind."""
+    if any(not isinstance(n, _SIMPLE_TEST) for n in ast.walk(node)):
+        return None
+    names = {n.id for n in ast.walk(node) if isinstance(n, ast.Name)}
+    rebound = set()
+    for st in tail:
+        for n in ast.walk(st):
+            if isinstance(n, ast.Name) and isinstance(n.ctx, (ast.Store, ast.Del)):
+                rebound.add(n.id)
+    if names & rebound:
+        return None
+    sim = leaf.sim
+    keep = (sim.assign, sim.cur_node, len(sim.reads), len(sim.unbound_locals), len(sim.preads), len(sim.none_uses), len(sim.unbound))
+    sim.assign = assign
+    try:
+        t = sim.snap(sim.ev(node, leaf.fr), record=False)
+        if any(is_tag(x, "unboundlocal", "poison", "unbound") for x in subterms(t)):
+            return None
+        return sim.try_decided(t)
+    except Exception:  # noqa - an expression the engine does not evaluate: not known
+        return None
+    finally:
+        sim.assign, sim.cur_node = keep[0], keep[1]
+        del sim.reads[keep[2]:], sim.unbound_locals[keep[3]:], sim.preads[keep[4]:], sim.none_uses[keep[5]:], sim.unbound[keep[6]:]
 
 
 class Leaf:
